@@ -531,6 +531,55 @@ func (cr *clRun) exec(i int, op Op) {
 		cr.note("later", rn.name+"-"+kind)
 	case "settle":
 		cr.settle()
+	case "resize2":
+		// two overlapping grow requests, the second one (sent C microseconds later) smaller than the first:
+		// whichever order they take effect in, the volume ends at the larger size, and if the smaller one
+		// comes second it is a shrink by then and must be refused without touching anything
+		if !(cr.allRW() && cr.idleIO() && !cr.faultsActive && op.A > op.B && op.B > 0 && c.ctrl != nil) {
+			cr.issueAdmin(i, Op{K: "resize", A: op.A})
+			return
+		}
+		s2 := cr.m.size + op.B*blk
+		before := map[string]bool{}
+		for _, r := range c.ctrl.ListReplicas() {
+			if r.Mode == types.RW {
+				before[r.Address] = true
+			}
+		}
+		sideDone := false
+		var sideErr error
+		cr.w.After(time.Duration(op.C)*time.Microsecond, fmt.Sprintf("side-resize-%d", i), func() {
+			simrt.GoNamed(c.adminN, fmt.Sprintf("admin/side%d", i), func() {
+				sideErr = cr.postResize(s2)
+				sideDone = true
+				cr.w.Kick()
+			})
+		})
+		cr.issueAdmin(i, Op{K: "resize", A: op.A})
+		if cr.stopped() {
+			return
+		}
+		if !cr.pump(hangLimit, func() bool { return sideDone }) {
+			cr.viol("C14", "management-request-hung", "the second of two overlapping resize requests did not return within %v", hangLimit)
+			return
+		}
+		cr.pump(3*time.Second, nil)
+		cr.res.stat("overlapping_resizes", 1)
+		cr.note("resize2", okstr(sideErr))
+		if cr.stopped() || cr.faultsActive || !cr.lockFree() {
+			return
+		}
+		for _, r := range c.ctrl.ListReplicas() {
+			if before[r.Address] && r.Mode != types.RW {
+				cr.viol("C16", "refused-shrink-changed-membership", "two overlapping grow requests (to %d and, %dus later, to %d): afterwards %s is %s (second request: %v)", cr.m.size, op.C, s2, r.Address, r.Mode, sideErr)
+				return
+			}
+			delete(before, r.Address)
+		}
+		for a := range before {
+			cr.viol("C16", "refused-shrink-changed-membership", "two overlapping grow requests: afterwards %s is gone from the replica list (second request: %v)", a, sideErr)
+			return
+		}
 	case "snap", "resize", "delsnap", "revert", "rmrep", "seterr", "addrep", "verify":
 		cr.issueAdmin(i, op)
 	}
@@ -771,7 +820,7 @@ func (cr *clRun) onAcquire(lock interface{}, g *simrt.G, write bool) {
 	o := cr.byG[g.Name]
 	cr.c.mu.Unlock()
 	if o == nil {
-		if a := cr.curAdmin; a != nil && strings.HasPrefix(g.Name, "http:admin>") {
+		if a := cr.curAdmin; a != nil && strings.HasPrefix(g.Name, "http:admin>") && strings.Contains(g.Name, fmt.Sprintf("#admin/op%d.", a.idx)) {
 			// (the list under the request's LAST lock hold is the one its effect happens under)
 			a.lastList = append([]types.Replica(nil), cr.c.ctrl.ListReplicas()...)
 			if !a.acquired {
@@ -1869,7 +1918,11 @@ func (clustersim) Generate(rng *Rand, prop, tier string) *Script {
 			if rng.Bool(25) {
 				d = -int64(rng.Intn(3))
 			}
-			add(Op{K: "resize", A: d})
+			if d > 1 && rng.Bool(40) {
+				add(Op{K: "resize2", A: d, B: int64(rng.Range(1, int(d)-1)), C: int64(rng.Intn(1500))})
+			} else {
+				add(Op{K: "resize", A: d})
+			}
 			if d > 0 {
 				nb += d
 				secs = nb * 8
